@@ -537,4 +537,5 @@ func Oracle(rec *syssim.Record, out *sim.Outcome) *simrt.Violation {
 
 func init() {
 	sim.Register(&sim.Scenario{Property: "C03", Name: "focused", Gen: gen(false), Exec: exec, Weight: 3})
+	sim.Register(&sim.Scenario{Property: "C03", Name: "full", Gen: gen(true), Exec: exec, Weight: 1})
 }
